@@ -39,6 +39,14 @@ def systematic_scripts(head):
                 out.append(vals[:at] + [["err", "5"]] + vals[at:])
                 out.append(vals[:at] + [["pending"], ["err", "5"]] + vals[at:])
     out.append([["ready", "1"], ["hang"], ["ready", "2"]])
+    # long bursts: many items ready back-to-back within ONE poll of the driver task (nothing in the
+    # property bounds how much a stream may hand over at once), with and without a pause in between
+    for n in (130, 300):
+        vals = [["ready", str(i + 1)] for i in range(n)]
+        out.append(list(vals))
+        out.append(vals[:n // 2] + [["pending"]] + vals[n // 2:])
+        if res:
+            out.append(vals + [["err", "5"]])
     return out
 
 
